@@ -751,7 +751,7 @@ func (st *c04State) checkLimit(next *ssa.Function, loops map[string]*c04Loop) {
 	rule := "C04.N3-limit"
 	construct := "cron.SpecSchedule.Next year limit"
 	found := false
-	var msg string
+	var msg, limitRel string
 	var pos token.Pos
 	allInstrs(next, func(in ssa.Instruction) {
 		ifi, ok := in.(*ssa.If)
@@ -812,10 +812,20 @@ func (st *c04State) checkLimit(next *ssa.Function, loops map[string]*c04Loop) {
 			msg = "the year limit is tested with " + op.String()
 			return
 		}
-		if k != 5 {
-			msg = fmt.Sprintf("the search is bounded by start year + %d, the documented bound is five years: schedules whose next activation is up to five years away (29 February) yield the zero time / or later instants are returned instead of the zero time", k)
+		// first calendar year that is given up: `year > start+k` gives up from start+k+1,
+		// `year >= start+k` from start+k. Every year up to start+5 can hold an instant
+		// less than five years after t, so it must still be examined.
+		firstGivenUp := k
+		rel := "t.Year() >= start year + " + fmt.Sprint(k)
+		if op == token.GTR || op == token.LEQ {
+			firstGivenUp = k + 1
+			rel = "t.Year() > start year + " + fmt.Sprint(k)
+		}
+		if firstGivenUp < 6 {
+			msg = fmt.Sprintf("the search gives up when %s, i.e. candidates in calendar year start+%d are never examined although they can lie less than five years after t: e.g. '0 0 0 29 Feb ?' from 2099-03-01 must yield 2104-02-29 (2100 is not a leap year), and Next returns the zero time instead", rel, firstGivenUp)
 			return
 		}
+		limitRel = rel
 		zero := false
 		if n := len(beyond.Instrs); n > 0 {
 			if ret, ok := beyond.Instrs[n-1].(*ssa.Return); ok && len(ret.Results) == 1 {
@@ -851,7 +861,7 @@ func (st *c04State) checkLimit(next *ssa.Function, loops map[string]*c04Loop) {
 		r.Violation(rule, construct, p.Pos(next.Pos()), "no comparison of t.Year() with start year + constant found in Next: the search is unbounded (an unsatisfiable schedule such as 30 February never returns) or the bound is not the documented five years")
 		return
 	}
-	r.Check(msg == "", rule, construct, p.Pos(pos), "t.Year() > start year + 5 returns time.Time{} at the top of the search", msg)
+	r.Check(msg == "", rule, construct, p.Pos(pos), "gives up (returns time.Time{}) only when "+limitRel+", tested at the top of the search: every year up to start+5 is examined", msg)
 }
 
 // checkZone: N4.
